@@ -1,13 +1,16 @@
 #!/usr/bin/env python3
 """Writes seeded/<id>/meta.json for every stored change: which property it breaks, what it needs in order to manifest,
 what was run to confirm it and which check reports it (from the agent's own notes, seeded/regression.json and
-seeded/round7.json)."""
+seeded/round7.json, round9.json, round10.json)."""
 import json
 from pathlib import Path
 
 S = Path(__file__).resolve().parents[1] / "seeded"
 reg = json.loads((S / "regression.json").read_text()) if (S / "regression.json").exists() else {}
 r7 = json.loads((S / "round7.json").read_text()) if (S / "round7.json").exists() else {}
+for later in ("round9.json", "round10.json"):
+    if (S / later).exists():
+        r7.update(json.loads((S / later).read_text()))
 for d in sorted(S.iterdir()):
     if not (d / "patch.diff").exists():
         continue
